@@ -23,6 +23,8 @@ func envOr(k, d string) string {
 	return d
 }
 
+var droppedHarnessFiles []string
+
 var (
 	repoDir    = envOr("VERIF_REPO", "/repo")
 	verifDir   = envOr("VERIF_DIR", "/verif")
@@ -37,9 +39,17 @@ func loadProgram(params map[string]int) (*sym.Program, error) {
 	if err != nil {
 		return nil, err
 	}
-	p, err := sym.Load(repoDir, []string{".", "./internal/parser"}, ov)
+	// the intrinsics and the oracle must load; any other harness file that does not type-check
+	// against the code under test any more is left out (its harnesses become unavailable)
+	p, dropped, err := sym.LoadTolerant(repoDir, []string{".", "./internal/parser"}, ov, func(virt string) bool {
+		return strings.HasSuffix(virt, "zz_verif_intrinsics.go") || strings.HasSuffix(virt, "zz_verif_oracle.go")
+	})
 	if err != nil {
 		return nil, err
+	}
+	droppedHarnessFiles = dropped
+	for _, d := range dropped {
+		fmt.Fprintln(os.Stderr, "harness file left out (does not type-check against this tree):", d)
 	}
 	p.Params = params
 	if err := p.RunInits(); err != nil {
